@@ -67,6 +67,27 @@ class Report:
     two key the finding (no line numbers)."""
     self.instances.append(Instance(rule, message, 'violation', message, loc, True, func, construct))
 
+  def absent(self, f, rule, func, construct, message, loc, subject=None):
+    """An absence-based contradiction ("f never does X"): a violation only when f hands nothing to repository code
+    that is not followed (au.delegations); otherwise X may be done there and the obligation is not decided."""
+    from mmsa import au as _au
+    dl = _au.delegations(self.repo, f) if f is not None and hasattr(self.repo, 'resolve_dotted') else []
+    if dl:
+      self.undecided(rule, subject or construct, 'not found in %s itself, but the function hands work to %s, which is not followed: it may be done there' % (f.qualname, dl[0][1]), loc)
+      return None
+    self.violation(rule, func, construct, message, loc)
+    return False
+
+  def absent_in_class(self, cls, rule, func, construct, message, loc, subject=None):
+    """"The class defines no method M": a violation only when nothing else can supply M (au.class_delegations)."""
+    from mmsa import au as _au
+    dl = _au.class_delegations(self.repo, cls)
+    if dl:
+      self.undecided(rule, subject or construct, 'not defined in the body of %s, but %s may supply it: not followed' % (cls.qualname, dl[0]), loc)
+      return None
+    self.violation(rule, func, construct, message, loc)
+    return False
+
   def undecided(self, rule, subject, why, loc=''):
     self.instances.append(Instance(rule, subject, 'undecided', why, loc, True))
 
